@@ -256,33 +256,63 @@ func (t *Tokenizer) run(tokens chan<- Token) {
 		case '⁰':
 			tokens <- Token{tOperate, "^", t.getLine()}
 			tokens <- Token{tNumber, "0", t.getLine()}
+			if t.comfortEnabled {
+				thisTokenType = tNumber
+			}
 		case '¹':
 			tokens <- Token{tOperate, "^", t.getLine()}
 			tokens <- Token{tNumber, "1", t.getLine()}
+			if t.comfortEnabled {
+				thisTokenType = tNumber
+			}
 		case '²':
 			tokens <- Token{tOperate, "^", t.getLine()}
 			tokens <- Token{tNumber, "2", t.getLine()}
+			if t.comfortEnabled {
+				thisTokenType = tNumber
+			}
 		case '³':
 			tokens <- Token{tOperate, "^", t.getLine()}
 			tokens <- Token{tNumber, "3", t.getLine()}
+			if t.comfortEnabled {
+				thisTokenType = tNumber
+			}
 		case '⁴':
 			tokens <- Token{tOperate, "^", t.getLine()}
 			tokens <- Token{tNumber, "4", t.getLine()}
+			if t.comfortEnabled {
+				thisTokenType = tNumber
+			}
 		case '⁵':
 			tokens <- Token{tOperate, "^", t.getLine()}
 			tokens <- Token{tNumber, "5", t.getLine()}
+			if t.comfortEnabled {
+				thisTokenType = tNumber
+			}
 		case '⁶':
 			tokens <- Token{tOperate, "^", t.getLine()}
 			tokens <- Token{tNumber, "6", t.getLine()}
+			if t.comfortEnabled {
+				thisTokenType = tNumber
+			}
 		case '⁷':
 			tokens <- Token{tOperate, "^", t.getLine()}
 			tokens <- Token{tNumber, "7", t.getLine()}
+			if t.comfortEnabled {
+				thisTokenType = tNumber
+			}
 		case '⁸':
 			tokens <- Token{tOperate, "^", t.getLine()}
 			tokens <- Token{tNumber, "8", t.getLine()}
+			if t.comfortEnabled {
+				thisTokenType = tNumber
+			}
 		case '⁹':
 			tokens <- Token{tOperate, "^", t.getLine()}
 			tokens <- Token{tNumber, "9", t.getLine()}
+			if t.comfortEnabled {
+				thisTokenType = tNumber
+			}
 		default:
 			t.unread()
 			c := t.peek(betweenTokens)
